@@ -16,6 +16,8 @@ import (
 
 type c17CallID struct{}
 
+type c17CancelKey struct{}
+
 type c17LogEntry struct {
 	call int
 	cb   int
@@ -110,6 +112,9 @@ func c17Case(b *Batch, idx int) {
 		slow := rng.Intn(4) == 0
 		inv.Callbacks = append(inv.Callbacks, func(ctx context.Context) {
 			id, _ := ctx.Value(c17CallID{}).(int)
+			if cf, ok := ctx.Value(c17CancelKey{}).(context.CancelFunc); ok && c == 0 {
+				cf()
+			}
 			mu.Lock()
 			log = append(log, c17LogEntry{call: id, cb: c, at: time.Now()})
 			pos := len(log) - 1
@@ -151,9 +156,16 @@ func c17Case(b *Batch, idx int) {
 		c := &c17Call{id: nextID, phase: phase, skip: effSkip}
 		calls = append(calls, c)
 		cmu.Unlock()
-		ctx := context.WithValue(bg, c17CallID{}, c.id)
+		ctx, cancel := context.WithCancel(context.WithValue(bg, c17CallID{}, c.id))
+		switch c.id % 5 {
+		case 1:
+			cancel() // already cancelled: Invalidate does not depend on the context
+		case 2:
+			ctx = context.WithValue(ctx, c17CancelKey{}, cancel) // the first callback cancels it
+		}
 		c.c = time.Now()
 		err := inv.Invalidate(ctx)
+		cancel()
 		c.r = time.Now()
 		c.err = err
 	}
